@@ -384,6 +384,7 @@ sexp sexp_write_bignum (sexp ctx, sexp a, sexp out, sexp_uint_t base) {
   b = sexp_copy_bignum(ctx, NULL, a, 0);
   sexp_bignum_sign(b) = 1;
   if (lg_base < 1) {
+    sexp_gc_release2(ctx);
     return sexp_xtype_exception(ctx, NULL, "number base too small", a);
   }
   i = str_len = (sexp_bignum_length(b)*sizeof(sexp_uint_t)*8 + lg_base - 1)
